@@ -19,21 +19,21 @@ CHECKS = {
     "C01": (
         "model_checking",
         "explicit-state BFS over the real consume_sample/populate_live_points driven by a scripted proposal, plus invariant monitors on real runs",
-        "Part A: a real NestedSampler (public constructor, scripted proposal) is advanced through every answer word of the proposal (<= 2 rejected answers of 6 kinds, then an accepted answer at every gap / tie / above-max position, pool emptied or not), from every initial population order with interleaved rejected candidates, with a pickle/resume event and finalise in every state, for nlive 2..3 (quick) / 2..5 (thorough); states are rank-compressed live sets (finite, explored to fixpoint); a list model runs in lock step and the C01 oracle is evaluated after every transition. Part B: the same oracle runs after every iteration of complete real runs over a lattice of proposal classes, latent priors, reparameterisations, flow types, shrinkage modes and resume-at-every-checkpoint histories.",
+        "Part A: a real NestedSampler (public constructor, scripted proposal) is advanced through every answer word of the proposal (<= 2 rejected answers of 6 kinds, then an accepted answer at every gap / tie / above-max position, pool emptied or not), from every initial population order with interleaved rejected candidates, with a pickle/resume event and finalise in every state, for nlive 2..3 (quick) / 2..5 (thorough); states are rank-compressed live sets (finite, explored to fixpoint); a list model runs in lock step and the C01 oracle is evaluated after every transition. Part B: the same oracle runs after every iteration of complete real runs over a lattice of proposal classes, latent priors, reparameterisations, flow types, shrinkage modes and resume-at-every-checkpoint histories. The real-run part also runs over every valid single option value of the C20 option alphabet (about 160 more configurations); only the monitor's clauses count there, whether such a run completes is C20's business.",
         "Order-isomorphic live sets have isomorphic futures for the C01 observables (only comparisons are applied to logL). nlive > 5 only through part B. Real runs use tiny Gaussian models and flows.",
         "4/C01",
     ),
     "C03": (
         "exploration",
         "bounded-exhaustive configuration lattice x all resume-point subsets, invariant monitor on every iteration and every stored sample",
-        "Real importance-sampler runs over the configuration lattice (quick: every single deviation; thorough: full 384-configuration product) and every subset of resume points of the default run; after every iteration, after finalise and after every resume each stored sample of both sets is checked: per-proposal densities re-evaluated from the proposals, mixture weights = fraction drawn per proposal, logQ = log mixture, logW = logU - logQ, unit hypercube, logL = model.",
+        "Real importance-sampler runs over the configuration lattice (quick: every single deviation; thorough: full 384-configuration product) and every subset of resume points of the default run; after every iteration, after finalise and after every resume each stored sample of both sets is checked: per-proposal densities re-evaluated from the proposals, mixture weights = fraction drawn per proposal, logQ = log mixture, logW = logU - logQ, unit hypercube, logL = model. The lattice is extended by every valid single INS option value of the C20 option alphabet.",
         "float32 flow densities compared at 1e-4; 4-iteration runs on tiny models.",
         "4/C03",
     ),
     "C05": (
         "exploration",
         "configuration lattice x resume histories with independent (mpmath) recomputation of the estimator from the returned arrays",
-        "Completed runs of both samplers over their configuration lattices and resume histories (none, once, every checkpoint, all subsets for the INS default; converged and iteration-capped): logZ, information, sqrt(H/nlive), posterior weights, sample counts, ordering, model fidelity of logL/logP, birth likelihoods, posterior rows and the result dictionary are recomputed from the returned samples only.",
+        "Completed runs of both samplers over their configuration lattices and resume histories (none, once, every checkpoint, all subsets for the INS default; converged and iteration-capped): logZ, information, sqrt(H/nlive), posterior weights, sample counts, ordering, model fidelity of logL/logP, birth likelihoods, posterior rows and the result dictionary are recomputed from the returned samples only. Both lattices are extended by every valid single option value of the C20 option alphabet (about 240 more configurations).",
         "nessai's documented information recursion (zero until two finite contributions) is the estimator recomputed.",
         "4/C05",
     ),
@@ -61,7 +61,7 @@ CHECKS = {
     "C09": (
         "exploration",
         "population lattice with the acceptance variate behind an explorer-owned seam (every lattice value), pool monitors on real runs, inverse-CDF check of the radial samplers",
-        "For every configuration of the population lattice (latent prior x constant volume x accumulate_weights x truncate_log_q x reparameterisation x pool/draw sizes x uniform/ramp prior, radius options, augmented and clustering proposals, trained and untrained flows) the candidates and densities are captured at the backward-pass seam and populate() is run for every lattice shift k of the acceptance variates; the pool must be exactly the candidates with u < (prior/q)/max (running maximum when accumulating), in order, truncated to the requested size, and every latent draw must lie inside r*fuzz. Every population and every draw of the real-run lattices is monitored (bounds, logP/logL = model, exact size, indices a permutation and handed out once, latent contour) together with the likelihood-call guard. Radial samplers are checked as inverse-CDF maps on the variate lattice; rejection/analytic proposals on three models.",
+        "For every configuration of the population lattice (latent prior x constant volume x accumulate_weights x truncate_log_q x reparameterisation x pool/draw sizes x uniform/ramp prior, radius options, augmented and clustering proposals, trained and untrained flows) the candidates and densities are captured at the backward-pass seam and populate() is run for every lattice shift k of the acceptance variates; the pool must be exactly the candidates with u < (prior/q)/max (running maximum when accumulating), in order, truncated to the requested size, and every latent draw must lie inside r*fuzz. Every population and every draw of the real-run lattices is monitored (bounds, logP/logL = model, exact size, indices a permutation and handed out once, latent contour) together with the likelihood-call guard. Radial samplers are checked as inverse-CDF maps on the variate lattice; rejection/analytic proposals on three models. The real-run part also runs over every valid single option value of the C20 option alphabet for both samplers.",
         "Decisions within 1e-12 of the acceptance boundary are not decided. Untrained flows are not combined with accumulate_weights/truncate_log_q (degenerate weights, documented max_samples escape).",
         "4/C09",
     ),
